@@ -5,7 +5,7 @@
 //! (and nearly satisfying) configurations.
 use rv_common::Rng;
 use rv_ledger::prelude::*;
-use std::collections::{BTreeMap, BTreeSet};
+use std::collections::BTreeSet;
 
 pub const MAX_NEST: usize = 8; // MAX_ACCESS_RULE_DEPTH (documented validation limit)
 pub const MAX_NODES: usize = 64; // MAX_COMPOSITE_REQUIREMENTS
@@ -237,6 +237,95 @@ pub fn shape(rule: &AccessRule, u: &Universe) -> Shape {
     s
 }
 
+/// Boundary situations of the decisive rule (evidence that the run can tell `>=` from `>`, k from
+/// k-1, any from all, first proof from later proofs).
+pub fn boundaries(rule: &AccessRule, v: &Visible, out: &mut BTreeSet<&'static str>) {
+    fn atom_late(a: &ResourceOrNonFungible, v: &Visible) -> bool {
+        // satisfied by a proof, but not by the first proof of the zone
+        let by = |p: &PDesc| match a {
+            ResourceOrNonFungible::Resource(r) => p.res() == r,
+            ResourceOrNonFungible::NonFungible(g) => *p.res() == g.resource_address() && p.has_id(g.local_id()),
+        };
+        let virt = match a {
+            ResourceOrNonFungible::NonFungible(g) => v.virt.contains(g) || v.simulated.contains(&g.resource_address()),
+            _ => false,
+        };
+        !virt && v.proofs.iter().any(by) && !v.proofs.first().map(by).unwrap_or(false)
+    }
+    fn basic(b: &BasicRequirement, v: &Visible, out: &mut BTreeSet<&'static str>) {
+        let atoms: Vec<&ResourceOrNonFungible> = match b {
+            BasicRequirement::Require(a) => vec![a],
+            BasicRequirement::AmountOf(..) => vec![],
+            BasicRequirement::CountOf(_, l) | BasicRequirement::AllOf(l) | BasicRequirement::AnyOf(l) => l.iter().collect(),
+        };
+        if atoms.iter().any(|a| atom_late(a, v)) {
+            out.insert("atom-satisfied-only-by-a-later-proof-of-the-zone");
+        }
+        match b {
+            BasicRequirement::AmountOf(n, r) => {
+                let ps: Vec<Decimal> = v.proofs.iter().filter(|p| p.res() == r).map(|p| p.amount()).collect();
+                if let Some(m) = ps.iter().max() {
+                    let sum = ps.iter().fold(Decimal::ZERO, |a, x| a.checked_add(*x).unwrap());
+                    if m == n {
+                        out.insert("amount-of:largest-proof-equals-the-amount");
+                    }
+                    if m < n && sum >= *n {
+                        out.insert("amount-of:sum-of-proofs-reaches-the-amount-but-no-single-proof");
+                    }
+                    if m < n {
+                        out.insert("amount-of:proofs-present-but-too-small");
+                    }
+                }
+            }
+            BasicRequirement::CountOf(k, l) => {
+                let c = l.iter().filter(|a| sat_atom(a, v, false)).count();
+                if *k > 0 && c == *k as usize {
+                    out.insert("count-of:exactly-k-satisfied");
+                }
+                if *k > 1 && c + 1 == *k as usize {
+                    out.insert("count-of:k-minus-one-satisfied");
+                }
+                if c > *k as usize {
+                    out.insert("count-of:more-than-k-satisfied");
+                }
+            }
+            BasicRequirement::AnyOf(l) => {
+                let c = l.iter().filter(|a| sat_atom(a, v, false)).count();
+                if l.len() == 2 && c == 1 {
+                    out.insert("any-of:two-entries-exactly-one-satisfied");
+                }
+            }
+            BasicRequirement::AllOf(l) => {
+                let c = l.iter().filter(|a| sat_atom(a, v, false)).count();
+                if l.len() >= 2 && c + 1 == l.len() {
+                    out.insert("all-of:all-but-one-satisfied");
+                }
+            }
+            _ => {}
+        }
+    }
+    fn comp(c: &CompositeRequirement, v: &Visible, out: &mut BTreeSet<&'static str>) {
+        match c {
+            CompositeRequirement::BasicRequirement(b) => basic(b, v, out),
+            CompositeRequirement::AnyOf(cs) => {
+                if cs.len() >= 2 && cs.iter().filter(|c| sat_comp(c, v, false)).count() == 1 {
+                    out.insert("composite-any-of:exactly-one-child-satisfied");
+                }
+                cs.iter().for_each(|c| comp(c, v, out))
+            }
+            CompositeRequirement::AllOf(cs) => {
+                if cs.len() >= 2 && cs.iter().filter(|c| sat_comp(c, v, false)).count() + 1 == cs.len() {
+                    out.insert("composite-all-of:all-but-one-child-satisfied");
+                }
+                cs.iter().for_each(|c| comp(c, v, out))
+            }
+        }
+    }
+    if let AccessRule::Protected(c) = rule {
+        comp(c, v, out)
+    }
+}
+
 /// true when the rule fits in a manifest argument that starts `wrap` SBOR levels deep
 pub fn fits(rule: &AccessRule, wrap: usize) -> bool {
     manifest_encode_with_depth_limit(rule, MANIFEST_SBOR_V1_MAX_DEPTH.saturating_sub(wrap)).is_ok()
@@ -435,15 +524,45 @@ fn gen_rule_once(rng: &mut Rng, u: &Universe, max_nest: usize, wrap: usize) -> A
     // a small pool of basics re-used across the tree keeps wide/deep trees satisfiable
     let pool: Vec<BasicRequirement> = (0..rng.range(0, 3)).map(|_| gen_basic(rng, u)).collect();
     let (nest, budget, deep) = match rng.below(20) {
-        0..=5 => (0, 1, false),
-        6..=11 => (rng.range(1, 3) as usize, rng.range(2, 8) as usize, false),
-        12..=15 => (rng.range(2, 5) as usize, rng.range(5, 24) as usize, rng.bool()),
-        16 | 17 => (max_nest, rng.range(9, 40) as usize, true), // reaches the depth limit
-        18 => (rng.range(1, 2) as usize, MAX_NODES, false),       // as wide as allowed
+        0..=3 => (0, 1, false),
+        4..=9 => (rng.range(1, 3) as usize, rng.range(2, 8) as usize, false),
+        10..=14 => (rng.range(2, 5) as usize, rng.range(5, 24) as usize, rng.bool()),
+        15..=17 => (max_nest, rng.range(9, 40) as usize, true), // reaches the depth limit
+        18 => return exactly_64_nodes(rng, u, max_nest, wrap, &pool),
         _ => (max_nest, MAX_NODES, true),
     };
     let nest = nest.min(max_nest);
     let (c, _) = gen_comp(rng, u, 0, nest, wrap, budget, deep && nest > 0, &pool);
+    AccessRule::Protected(c)
+}
+
+/// a tree with exactly MAX_COMPOSITE_REQUIREMENTS nodes: 1 + 63 leaves, or 1 + 7 * (1 + 8)
+fn exactly_64_nodes(rng: &mut Rng, u: &Universe, max_nest: usize, wrap: usize, pool: &[BasicRequirement]) -> AccessRule {
+    let pool: Vec<BasicRequirement> = if pool.is_empty() { vec![gen_basic(rng, u)] } else { pool.to_vec() };
+    let mut leaf = |rng: &mut Rng, level: usize| -> CompositeRequirement {
+        let b = if rng.chance(9, 10) { rng.pick(&pool).clone() } else { gen_basic(rng, u) };
+        if basic_levels(&b) <= levels_available(level, wrap) {
+            CompositeRequirement::BasicRequirement(b)
+        } else {
+            let fb = rng.pick(&u.f);
+            CompositeRequirement::BasicRequirement(BasicRequirement::AmountOf(rule_amount(rng, fb), fb.addr))
+        }
+    };
+    let wrap_node = |rng: &mut Rng, cs: Vec<CompositeRequirement>| if rng.bool() { CompositeRequirement::AnyOf(cs) } else { CompositeRequirement::AllOf(cs) };
+    let c = if max_nest >= 2 && rng.bool() {
+        let mids: Vec<CompositeRequirement> = (0..7)
+            .map(|_| {
+                let cs = (0..8).map(|_| leaf(rng, 2)).collect();
+                wrap_node(rng, cs)
+            })
+            .collect();
+        wrap_node(rng, mids)
+    } else if max_nest >= 1 {
+        let cs = (0..MAX_NODES - 1).map(|_| leaf(rng, 1)).collect();
+        wrap_node(rng, cs)
+    } else {
+        leaf(rng, 0)
+    };
     AccessRule::Protected(c)
 }
 
@@ -592,8 +711,4 @@ pub fn witness(rng: &mut Rng, rule: &AccessRule, u: &Universe, implicit: &BTreeS
         AccessRule::DenyAll => None,
         AccessRule::Protected(c) => wit_comp(rng, c, u, implicit),
     }
-}
-
-pub fn kinds_map(kinds: &BTreeSet<&'static str>) -> BTreeMap<String, u64> {
-    kinds.iter().map(|k| (k.to_string(), 1)).collect()
 }
